@@ -36,8 +36,7 @@ Datas(o) == SelectSeq(o.resp, LAMBDA x : x.kind = "data")
 \* Features of a failing request computed from the cache content it started on (known-finding signatures, Appendix D):
 \* the output module's cached output exists for some segment while a store's snapshot for that segment is missing
 Has(fs, mod, kind, a, b) == \E i \in DOMAIN fs : ~fs[i].tmp /\ fs[i].mod = mod /\ fs[i].kind = kind /\ fs[i].start = a /\ fs[i].end = b
-OutputCachedButStoreSnapshotMissing(r) ==
-  LET fs == r.filesBefore IN
+OutputCachedButStoreSnapshotMissingIn(r, fs) ==
   \E i \in DOMAIN fs : ~fs[i].tmp /\ fs[i].mod = OutOf(r).name /\ fs[i].kind = "output" /\
      \E j \in DOMAIN UProg(r) : LET m == UProg(r)[j] IN m.kind = "store" /\ m.init < fs[i].end /\
         ~Has(fs, m.name, "kv", m.init, fs[i].end) /\
@@ -68,9 +67,16 @@ LowerStageStartsLater(r) ==
   "stages" \in DOMAIN r.obs /\
   LET f == r.obs.stages.first  la == r.obs.stages.last IN
   \E i \in DOMAIN f, j \in DOMAIN f : i < j /\ f[i] - 1 > f[j] /\ la[j] > f[j]
+OutputCachedButStoreSnapshotMissing(r) == OutputCachedButStoreSnapshotMissingIn(r, r.filesBefore)
+\* the same state produced DURING the request: a tier2 job interrupted by a transient fault (stream dropped mid-way) after it
+\* wrote the output module's file and before it wrote the store snapshots; the retried job finds the output file and returns
+\* at once ("found existing exec output for output_module, skipping run")
+InterruptedBetweenOutputAndSnapshot(r) ==
+  "faults" \in DOMAIN r /\ "files" \in DOMAIN r.obs /\ OutputCachedButStoreSnapshotMissingIn(r, r.obs.files)
 FailSig(r) ==
   IF "filesBefore" \in DOMAIN r /\ SnapshotHole(r) THEN "request_failed:store_snapshot_hole"
   ELSE IF "filesBefore" \in DOMAIN r /\ OutputCachedButStoreSnapshotMissing(r) THEN "request_failed:output_cached_but_store_snapshot_missing"
+  ELSE IF InterruptedBetweenOutputAndSnapshot(r) THEN "request_failed:output_cached_but_store_snapshot_missing:job_interrupted_between_the_two_writes"
   ELSE IF LowerStoreAboveHandoff(r) \/ LowerStageStartsLater(r) THEN "request_failed:lower_stage_store_starts_above_handoff"
   ELSE IF StoreStagesDroppedFromMatrix(r) THEN "request_failed:store_stages_dropped_stage_index_shift"
   ELSE "request_failed"
